@@ -14,6 +14,7 @@ def idxOffsetKeyConsistent : Bool := true
 /-- the torch backend's `interp` definition is the clamped two-point formula that the correspondence was validated for -/
 def torchInterpIsLinear : Bool := true
 def heunCopiesRhs : Bool := true
+def storeGuarded : Bool := true
 /-- BaseBackend.run builds `times` as np.arange(n)*step (true) or as linspace(0,T,n,endpoint=False)/unknown (false) -/
 def timeAxisIsArange : Bool := true
 structure BackendT where
